@@ -17,6 +17,8 @@ Core Lean only.
 -/
 import SshuttleModel.Env.FwState
 import SshuttleModel.Gen.C04
+import SshuttleModel.Generated
+import SshuttleModel.Code.FwDialogue
 
 namespace Sshuttle.Fw
 
@@ -480,5 +482,25 @@ def session (c : Config) (d : List Line) (e : Env) : Exit × Env :=
     let (r, l1, e1) := tryBody c h rest {} e
     let (_, e2) := finallyBody c h l1 e1
     (match r with | none => .returned | some x => .raised x, e2)
+
+/-! ### from the bytes on the control channel to the dialogue
+
+`_read_next_string_line` (firewall.py) is modelled once, in `Code/FwDialogue.lean` (`rawLines`:
+`readline(128)` pieces joined into lines; at end of input inside a line the unfinished piece is
+given up or handed out, as the source has it).  Which of the two the source does is read from the
+working tree as `Gen.C04.FW_READER_DROPS_UNFINISHED`. -/
+
+/-- The raw lines `main` obtains when the control channel carries `text` and is then closed. -/
+def readerLines (text : Bytes) : List Bytes :=
+  FwDialogue.rawLines Generated.FW_READLINE_MAX Gen.C04.FW_READER_DROPS_UNFINISHED text
+
+/-- The dialogue `main` acts on: every raw line classified by what `main` tests (`classify` is the
+harness's lexer; the theorems hold for every classification). -/
+def dialogueOfText (classify : Bytes → Line) (text : Bytes) : List Line :=
+  (readerLines text).map classify
+
+/-- `firewall.main` on the bytes of the control channel. -/
+def sessionText (c : Config) (classify : Bytes → Line) (text : Bytes) (e : Env) : Exit × Env :=
+  session c (dialogueOfText classify text) e
 
 end Sshuttle.Fw
